@@ -149,6 +149,11 @@ add("C26", "E2-worlds", "exploration",
     "Bound: 26 RPCs / 48 shapes, grant subsets of size <=1 (<=3 in thorough) of 7 grants (13 for ListStores/CreateStore, size <=2). 'All code paths' is met per handler and request shape, not per branch. Trusted: h/c26/oracle.go (hand-written relation table), recording datastore wrapper. Write may read the target store's model before authorizing (needed to derive modules).",
     "bounded exhaustive enumeration of (RPC, caller, grant set, fault point) on the real server with a real access-control store, against an independent grant rule")
 
+add("C23", "E1-scheduler", "exploration",
+    "(a) 30 tuple-iterator adapter variants x all input sequences of length <=3 over an ordered 3-symbol alphabet, each ending in Done, a sticky injected error or a context cancel, x all call scripts over {Next, Head, Stop} of length <=4, against list-based specifications; (b) all interleavings within the preemption bound of 2-3 consumers of one real shared iterator (sharediterator instrumented at build time, its admission/idle timers modelled as threads that may fire at any point): every consumer sees a prefix-closed view of the complete sequence, no deadlock/livelock/panic, every opened underlying iterator is stopped.",
+    "Bound: (a) lengths <=3, scripts <=4 (5 in thorough), aspects the doc comments leave open are listed in evidence and not compared; (b) 11 scenarios, 0-18 items, preemption bounds 0-1 required in quick (0-2 in thorough), then <=2 and unbounded best effort. Trusted: vrt/vsync/vatomic/vtime models, vgen rewrite, fair-scheduling rule for await.Do's hand-off spin.",
+    "exhaustive enumeration of inputs x call scripts against list specifications, plus stateless model checking of the shared iterator under a controlled scheduler")
+
 NOT_BUILT ="check not built yet in this session; see DESIGN.md §5 for the planned decision procedure"
 NA = {}
 
